@@ -165,3 +165,65 @@ fn c17_zone_create() {
         clause!(z.offset == offset, "C17: the zone keeps its offset");
     }
 }
+
+// ---------------------------------------------------------------------------------------------
+// NvmAlloc::create (C17): zone layout [ managed frames | lower metadata | header ], header check.
+// The inner allocator is the recording stub; its lower-metadata size is the real one.
+// ---------------------------------------------------------------------------------------------
+const ZONE: usize = 8;
+
+fn nvm_classing() -> Classing {
+    Classing::new(&[(Class(0), 1)], Class(0), |_, _, _| Policy::Match(0))
+}
+
+#[kani::proof]
+#[kani::unwind(10)]
+fn c17_nvm_create_layout() {
+    let mut zone: [Frame; ZONE] = core::array::from_fn(|_| Frame::new());
+    let base = zone.as_ptr() as usize;
+    let mut local = [0u8; 64];
+    let mut trees = [0u8; 64];
+    let classing = nvm_classing();
+    unsafe { NEW_CALLED = false };
+    let r = NvmAlloc::<StubAlloc>::create(&mut zone[..], false, &classing, &mut local[..], &mut trees[..]);
+    vcover!(r.is_ok(), "zone accepted");
+    if let Ok(a) = r {
+        let frames = a.frames();
+        let (lp, ll) = unsafe { NEW_LOWER };
+        clause!(unsafe { NEW_CALLED } && unsafe { NEW_FRAMES } == frames && unsafe { NEW_INIT } == 0, "C17: create initialises the inner allocator (free-all) over the managed frames");
+        clause!(frames + 2 <= ZONE, "C17: the managed range leaves room for the lower metadata and the header page");
+        clause!(lp >= base + frames * Frame::SIZE, "C17: the lower metadata starts behind the managed frames (no handed-out frame overlaps it)");
+        clause!(lp + ll <= base + (ZONE - 1) * Frame::SIZE, "C17: the lower metadata does not reach into the header page");
+        clause!(ll >= crate::lower::Lower::metadata_size(frames), "C17: the lower metadata is large enough for the managed frames");
+        clause!(a.alloc.offset == base / Frame::SIZE, "C17: the zone offset is the frame number of the zone's first frame");
+    }
+}
+
+/// Recovery refuses a region without an instance of the same size; recovers an instance it created
+/// with the same managed frame count and the same lower-metadata location (Init::Recover).
+#[kani::proof]
+#[kani::unwind(10)]
+fn c17_nvm_recover_header() {
+    let mut zone: [Frame; ZONE] = core::array::from_fn(|_| Frame::new());
+    let mut local = [0u8; 64];
+    let mut trees = [0u8; 64];
+    let classing = nvm_classing();
+    // arbitrary header contents
+    let magic: usize = kani::any();
+    let hframes: usize = kani::any();
+    {
+        let meta = zone[ZONE - 1].cast_mut::<Meta>();
+        meta.magic.store(magic, Release);
+        meta.frames.store(hframes, Release);
+    }
+    unsafe { NEW_CALLED = false };
+    let r = NvmAlloc::<StubAlloc>::create(&mut zone[..], true, &classing, &mut local[..], &mut trees[..]);
+    vcover!(r.is_ok(), "instance recovered");
+    vcover!(r.is_err(), "recovery refused");
+    if r.is_ok() {
+        clause!(magic == Meta::MAGIC && hframes == ZONE - 1, "C17: recovery is refused unless the region holds an instance of the same size");
+        clause!(unsafe { NEW_CALLED } && unsafe { NEW_INIT } == 2, "C17: recovery rebuilds the inner allocator in recover mode");
+    } else if magic != Meta::MAGIC || hframes != ZONE - 1 {
+        clause!(!unsafe { NEW_CALLED }, "C17: a refused recovery does not touch the region");
+    }
+}
